@@ -26,7 +26,7 @@ def keyLineMin (k : DecryptionKey) : Nat :=
 def lineMin : Line → Nat
   | .key (some k) => keyLineMin k
   | .sessionKey k => keyLineMin k
-  | .inf t => if t.duration % nanosPerSec == 0 then 1 else 3
+  | .inf t => if t.writtenFraction then 3 else 1      -- decimal-floating-point EXTINF: the WRITTEN number has a fraction
   | .byteRange _ => 4
   | .iFramesOnly => 4
   | .map _ => 5
@@ -668,6 +668,11 @@ example :
     let p : MediaPlaylist := ⟨10000000000, 0, 0, none, false, false, none, false, [seg], 0, []⟩
     p.requiredVersion = 4 ∧ (match p.writeLines with
       | .ok ls => rfcMin ls
-      | _ => 0) = 4 := by decide
+      | _ => 0) = 4 := by decide +kernel
+
+/-- finding K11 (repaired by `fix:` c2c8895): what counts for EXTINF is the WRITTEN number. 10^10 s + 1 ns (only the
+builders make it) is written `10000000000`, an integer: version 1, although the value has nanoseconds; 1.5 s is written `1.5`. -/
+example : ExtInf.requiredVersion ⟨10000000000000000001, none⟩ = 1 ∧ ExtInf.requiredVersion ⟨1500000000, none⟩ = 3
+    ∧ ExtInf.show ⟨10000000000000000001, none⟩ = "#EXTINF:10000000000,".toList := by decide +kernel
 
 end Hls.C10
